@@ -1,5 +1,6 @@
 """C01 — parsing conforms to the documented PEG semantics of the grammar language."""
 from props.common import *
+from props.vmcommon import generated_leg
 import binascii
 
 MODULE = ["PestModel.Thm.C01", "PestModel.Thm.EndToEnd"]
@@ -90,6 +91,9 @@ def run(ctx):
                 ctx.violation({"kind": "Vm::parse over optimize(grammar) disagrees with the reference denotation of the documented semantics (success / pairs / empty-stack panic)",
                                "features": fs, "case": case, "impl": imp, "reference": mod, "failing_inputs_in_run": len(unlisted)})
                 found_input = True
+    # the parser pest_generator emits: same success / pairs / panic as the VM (which the legs above hold against the reference)
+    nrep, gen_stats = generated_leg(ctx, lambda g, v: not (g.startswith("err") and v.startswith("err")))
+    found_input = found_input or nrep > 0
     if problems and not found_input:
         ctx.violation({"obligation": MODULE, "problems": problems}, no_input=True)
     cov = dict(frag)
@@ -103,7 +107,7 @@ def run(ctx):
         "exhaustive_scope": f"per grammar and start rule: all strings up to {g.get('max_exhaustive_input_len')} characters over <= 6 symbols",
         "traces_validated_against_impl": sum(s.get("evaluations", 0) for s in stats.values()),
         "samples": [x[:300] for x in g.get("samples", [])][:3],
-        "distribution": {k: {kk: vv for kk, vv in v.items() if kk != "samples"} for k, v in stats.items()},
+        "distribution": dict({k: {kk: vv for kk, vv in v.items() if kk != "samples"} for k, v in stats.items()}, generated_parser=gen_stats),
         "mismatching_lines": sum(len(c.mismatch) for c in allcs),
     })
     ctx.evidence(level_of(ctx.prop), cov, [
@@ -115,4 +119,6 @@ def run(ctx):
 
 def replay(ctx, path):
     r = json.load(open(path))
+    if r.get("leg") == "generated":
+        return replay_generic(ctx, path, "drv_gen", MODE, featureset=("extras" if r.get("features") == "extras" else "default"))
     return replay_generic(ctx, path, DRV, MODE, featureset=("extras" if r.get("features") == "extras" else "default"))
